@@ -1626,6 +1626,8 @@ func (e *Engine) deleteSeriesRange(seriesKeys [][]byte, min, max int64) error {
 		return err
 	}
 
+	verifPoint("delete.tombstoned", e.path)
+
 	// find the keys in the cache and remove them
 	deleteKeys := make([][]byte, 0, len(seriesKeys))
 
@@ -1648,12 +1650,15 @@ func (e *Engine) deleteSeriesRange(seriesKeys [][]byte, min, max int64) error {
 
 	e.Cache.DeleteRange(deleteKeys, min, max)
 
+	verifPoint("delete.cache", e.path)
+
 	// delete from the WAL
 	if e.WALEnabled {
 		if _, err := e.WAL.DeleteRange(deleteKeys, min, max); err != nil {
 			return err
 		}
 	}
+	verifPoint("delete.wal", e.path)
 
 	// The series are deleted on disk, but the index may still say they exist.
 	// Depending on the the min,max time passed in, the series may or not actually
@@ -2010,6 +2015,7 @@ func (e *Engine) writeSnapshotAndCommit(log *zap.Logger, closedFiles []string, s
 		log.Info("Error writing snapshot from compactor", zap.Error(err))
 		return err
 	}
+	verifPoint("snapshot.written", e.path)
 
 	e.mu.RLock()
 	defer e.mu.RUnlock()
@@ -2026,6 +2032,8 @@ func (e *Engine) writeSnapshotAndCommit(log *zap.Logger, closedFiles []string, s
 		}
 		return err
 	}
+
+	verifPoint("snapshot.installed", e.path)
 
 	// clear the snapshot from the in-memory cache, then the old WAL files
 	e.Cache.ClearSnapshot(true)
@@ -2325,6 +2333,8 @@ func (s *compactionStrategy) compactGroup() {
 		return
 	}
 
+	verifPoint("compact.written", s.engine.path)
+
 	if err := s.fileStore.ReplaceWithCallback(group, files, nil); err != nil {
 		log.Info("Error replacing new TSM files", zap.Error(err))
 		atomic.AddInt64(s.errorStat, 1)
@@ -2338,6 +2348,8 @@ func (s *compactionStrategy) compactGroup() {
 		}
 		return
 	}
+
+	verifPoint("compact.installed", s.engine.path)
 
 	for i, f := range files {
 		log.Info("Compacted file", zap.Int("tsm1_index", i), zap.String("tsm1_file", f))
